@@ -118,7 +118,7 @@ def ser_model(flat, name):
     for k, c in flat.classes.items():
         if c.type == "function":
             funcs[k] = ser_class(c)
-    return {"model": ser_class(flat.classes[name]), "functions": funcs}
+    return {"model": ser_class(flat.classes[name]), "functions": funcs, "function_order": list(funcs)}
 
 
 # ======================================================================================
@@ -234,10 +234,9 @@ class Oracle:
         return out
 
     def loop_values(self, idx, r, syms):
-        """Values of a loop index.  pymoca's parser stores `a:b` as Slice(start=a, stop=b, step=1).  For the
-        three-part form the Modelica reading of the source text `a:s:b` is start=a, step=s, stop=b; what the
-        AST holds for it depends on the parser (known finding C11-F1), so the oracle takes three-part ranges
-        from the source text (`ranges`, recorded by the generator) and accepts only step 1 from the AST."""
+        """Values of a loop index: the Modelica range start:step:stop.  Three-part ranges are taken from the
+        SOURCE TEXT when the generator recorded them (`ranges`), so that the oracle does not depend on how the
+        parser fills the Slice node; otherwise from the node (start, step, stop)."""
         if idx in self.ranges:
             a, s_, b = self.ranges[idx]
             return self.modelica_range(a, s_, b)
@@ -246,9 +245,7 @@ class Oracle:
         start = self.integer(r["start"], syms)
         stop = self.integer(r["stop"], syms)
         step = self.integer(r["step"], syms)
-        if step != 1:
-            raise Unsupported("stepped range without its source text")
-        return self.modelica_range(start, 1, stop)
+        return self.modelica_range(start, step, stop)
 
     # ---- expressions --------------------------------------------------------------------------------
     def symval(self, name, env, shape_of=None):
@@ -991,6 +988,7 @@ class ModelGen:
     make() -> case dict {text, name, points:[{name:[q,...]}], ranges:{idx:[a,s,b]}, stream, features}"""
 
     def __init__(self, rng, npoints=3, count=None, loops=None, functions=None, delay=False):
+        self.ranges = {}
         self.rng = rng
         self.np = npoints
         self.count = count or (lambda k: None)
@@ -1058,7 +1056,13 @@ class ModelGen:
                 hi = r.randint(1, 3)
                 bsc = sc.copy()
                 bsc.atoms["gen"] = list(assigned) + [idx]
-                s = "  for %s in 1:%d loop\n    %s := %s;\n" % (idx, hi, v, binop("+", mk(v), self.eg.gen(bsc, 1)))
+                rtxt = "1:%d" % hi
+                if r.random() < 0.25:
+                    st, hi = r.randint(2, 3), r.randint(2, 6)
+                    rtxt = "1:%d:%d" % (st, hi)
+                    self.ranges[idx] = [1, st, hi]
+                    self.count("stmt:for-stepped")
+                s = "  for %s in %s loop\n    %s := %s;\n" % (idx, rtxt, v, binop("+", mk(v), self.eg.gen(bsc, 1)))
                 others = [w for w in assigned if w in todo and w != v]
                 if others and r.random() < 0.4:
                     w = self.eg.pick(others)
@@ -1078,7 +1082,7 @@ class ModelGen:
     def make(self):
         r = self.rng
         self.uid = 0
-        ranges = {}
+        ranges = self.ranges = {}
         feats = set()
         funcs_txt, funcs = "", []
         nf = self.want_funcs if self.want_funcs is not None else self.eg.wchoice([(0, 5), (1, 4), (2, 2)])
@@ -1279,19 +1283,26 @@ class ModelGen:
         hi = L if r.random() < 0.6 else r.randint(lo, L)
         if r.random() < 0.05:
             lo, hi = 2, 1     # empty loop
+        step = 1
         rng_txt = "%d:%d" % (lo, hi)
         if nval is not None and lo == 1 and hi == nval and r.random() < 0.6:
             rng_txt = "1:n0"
-        self.count("for:len-%d" % max(0, hi - lo + 1))
+        elif hi > lo and r.random() < 0.3:
+            step = r.randint(2, 3)
+            rng_txt = "%d:%d:%d" % (lo, step, hi)
+            self.ranges[idx] = [lo, step, hi]
+            self.count("for:stepped")
+        values = list(range(lo, hi + 1, step))
+        self.count("for:len-%d" % len(values))
 
         def forms(length):
             out = []
             for txt, fn in (("%s", lambda i: i), ("%s+1", lambda i: i + 1), ("%s-1", lambda i: i - 1),
                             ("2*%s", lambda i: 2 * i), ("2*%s-1", lambda i: 2 * i - 1),
                             ("%d-%%s" % (length + 1), lambda i: length + 1 - i)):
-                if hi < lo and txt != "%s":
-                    continue    # empty loop with a computed subscript: known finding C11-F3, own stream
-                if all(1 <= fn(i) <= length for i in range(lo, hi + 1)):
+                if not values and txt != "%s":
+                    continue    # empty loop with a computed subscript: known finding C11-F4, own stream
+                if all(1 <= fn(i) <= length for i in values):
                     out.append(txt % idx)
             return out
         bsc = sc.copy()
